@@ -27,19 +27,27 @@ def disciplined_token(c, r, qi):
 def gen_case(rng, size=None, profile=None):
     """-> (header list, op list) ; profile aims the history at one region of the proof"""
     profile = profile or rng.choice(["mixed", "mixed", "mixed", "nonrun", "nstart", "churn",
-                                     "rst", "keys", "wrapless", "err", "xres"])
+                                     "rst", "keys", "wrapless", "err", "xres", "rstcon", "rstcon"])
     nres = rng.choice([1, 1, 2, 2, 3])
     modes = [rng.choice([0, 0, 0, 0, 1, 1, 2]) for _ in range(3)]
     if profile == "nonrun":
         modes = [0, 0, rng.choice([0, 1])]
     if profile == "nstart":
         modes = [rng.choice([0, 1, 1]) for _ in range(3)]
+    if profile == "rstcon":
+        # several observations of ONE peer (one session, one NSTART window): a confirmable
+        # notification of one of them is reset / acknowledged / given up, the others must go on
+        nres = rng.choice([2, 3])
+        modes = [rng.choice([1, 1, 0]) for _ in range(3)]
+        nstart = rng.choice([1, 1, 2])
     if profile == "xres":
         # one token on several resources: the RST / give-up paths that act on (session, token)
         nres = rng.choice([2, 3])
         modes = [rng.choice([0, 1, 1]) for _ in range(3)]
     nstart = rng.choice([1, 1, 1, 1, 2, 3])
     nobs = rng.choice([1, 2, 2, 3, 4])
+    if profile == "rstcon":
+        nobs = rng.choice([1, 1, 2])
     n = size or rng.choice([6, 10, 16, 24, 40, 60])
     ops = []
     if profile == "wrapless" or rng.random() < 0.1:
@@ -88,6 +96,7 @@ def gen_case(rng, size=None, profile=None):
              "wrapless": (0.10, 0.45, 0.80, 0.88, 0.92, 0.94, 0.96, 0.97, 0.98, 0.99, 0.995, 0.999),
              "err": (0.15, 0.38, 0.58, 0.66, 0.72, 0.76, 0.79, 0.82, 0.92, 0.95, 0.97, 0.99),
              "xres": (0.12, 0.40, 0.62, 0.70, 0.86, 0.88, 0.94, 0.96, 0.97, 0.98, 0.99, 0.995),
+             "rstcon": (0.10, 0.42, 0.66, 0.74, 0.90, 0.91, 0.95, 0.96, 0.97, 0.98, 0.99, 0.995),
              }[profile]
         if x < w[0]:
             ops.append(reg())
@@ -118,6 +127,14 @@ def gen_case(rng, size=None, profile=None):
         else:
             ops.append("idle")
         # bursts that cross the NON budget: change + io several times in a row
+        if profile == "rstcon" and rng.random() < 0.2:
+            # answer the latest confirmable, then a run of changes on every resource
+            a = rng.choice(["rst:%d:0", "ack:%d:0", "rst:%d:0", "fail"])
+            ops.append(a % rng.randrange(nobs) if "%" in a else a)
+            for _ in range(rng.choice([2, 6, 7])):
+                for r in range(nres):
+                    ops.append("chg:%d:1" % r)
+                ops.append("io")
         if profile in ("nonrun", "wrapless") and rng.random() < 0.25:
             r = rng.randrange(nres)
             for _ in range(rng.choice([4, 5, 6, 7])):
@@ -159,9 +176,24 @@ def request_opts(r, q, x, observe):
     return ",".join("%s=%s" % (n, v if v else "_") for n, v in opts)
 
 
-def _ca(tok):
+def _ca(tok, wire=None, leaks=None, where=""):
+    """con_active of the sessions as the implementation reports it, capped by what is really
+    outstanding on the wire: a session without an unanswered confirmable message has a free NSTART
+    slot whatever the library's counter says (a leaked counter must not excuse a held-back observer)"""
     parts = tok.split(",")
-    out = ["%d=%s" % (i, p) for i, p in enumerate(parts) if p != "-"]
+    out = []
+    for i, p in enumerate(parts):
+        if p == "-":
+            continue
+        v = int(p)
+        if wire is not None:
+            w = len(wire.get(i, ()))
+            if v > w:
+                if leaks is not None:
+                    leaks.append("%s: con_active=%d for observer %d, confirmable messages outstanding "
+                                 "on the wire: %d" % (where, v, i, w))
+                v = w
+        out.append("%d=%d" % (i, v))
     return ",".join(out) if out else "-"
 
 
@@ -177,6 +209,7 @@ class Trace:
         self.steps = 0
         self.obs0 = {}          # resource -> initial observe value (coap_persist_set_observe_num)
         self.anomalies = []     # wire details the model fixes but its outputs do not carry
+        self.ca_leaks = []      # con_active above the number of confirmables outstanding on the wire
 
 
 def translate(case_line, trace_line):
@@ -196,6 +229,8 @@ def translate(case_line, trace_line):
     by_mid = {}             # (c, mid) -> notification ordinal
     nord = 0
     last_req = {}           # c -> model op of its last request
+    wire = {}               # c -> set of mids of confirmable messages sent to c and not yet answered
+                            #      (ACK or RST delivered), given up, or dropped with the session
     cur_hop = None
     cur = None              # current model group [op, outs, hop, events]
     in_step = False
@@ -234,12 +269,16 @@ def translate(case_line, trace_line):
                 tgt = f[2].split("=")[1]
                 if tgt != "none":
                     k = int(tgt)
+                    for d0 in t.datagrams:
+                        if d0["k"] == k:
+                            wire.get(c, set()).discard(d0["mid"])
                     if k in ordinal:
                         new_group("%s:%d:%d" % ("A" if op == "ack" else "T", c, ordinal[k]), cur_hop)
             elif op == "err":
                 new_group("E:%d:%d" % (int(f[1]), 1 if int(f[2]) else 0), cur_hop)
             elif op == "lost":
                 if not f[1].endswith("=none"):
+                    wire.pop(int(f[1]), None)
                     new_group("L:%d" % int(f[1]), cur_hop)
             elif op == "del":
                 pending_del = int(f[1])
@@ -251,7 +290,7 @@ def translate(case_line, trace_line):
                     t.obs0[int(f[1])] = int(f[2])
             continue
         if tk.startswith("S"):
-            new_group("I:" + _ca(tk[1:]), cur_hop)
+            new_group("I:" + _ca(tk[1:], wire, t.ca_leaks, "op %d (%s)" % (len(t.groups), cur_hop)), cur_hop)
             in_step = True
             t.steps += 1
             continue
@@ -260,11 +299,13 @@ def translate(case_line, trace_line):
             cur = None
             continue
         if tk.startswith("Z"):
-            new_group("D:%d:%s" % (pending_del, _ca(tk[1:])), cur_hop)
+            new_group("D:%d:%s" % (pending_del, _ca(tk[1:], wire, t.ca_leaks, "op %d (%s)" % (len(t.groups), cur_hop))),
+                      cur_hop)
             continue
         if tk.startswith("F"):
             c, tok, mid = tk[1:].split(":")
             key = (int(c), int(mid))
+            wire.get(int(c), set()).discard(int(mid))
             if key in by_mid:
                 new_group("F:%d:%d" % (int(c), by_mid[key]), cur_hop)
                 cur = None
@@ -281,6 +322,8 @@ def translate(case_line, trace_line):
             d = {"k": int(f[0]), "c": int(f[1]), "origin": f[2], "type": f[3], "code": int(f[4]),
                  "mid": int(f[5]), "tok": f[6], "obs": f[7], "pay": f[8], "hop": cur_hop}
             t.datagrams.append(d)
+            if d["type"] == "C" and d["c"] >= 0:
+                wire.setdefault(d["c"], set()).add(d["mid"])
             body = bytes.fromhex(d["pay"]).decode("latin-1") if d["pay"] != "-" else ""
             m = re.match(r"(\d+)\.(\d+)$", body)
             d["res"] = int(m.group(1)) if m else None
